@@ -4,7 +4,7 @@
    field multiplication the result limbs are a magnitude-1 representation and the values are the specified products modulo p. *)
 From Coq Require Import ZArith Lia List Bool Setoid Morphisms.
 Require Import Kernel.CSem Kernel.Bind Kernel.Field5x52 Kernel.Field5x52Sqr Kernel.FieldWp Kernel.Cong Kernel.GejDouble.
-Require Import Gen.fe_mul_inner Gen.fe_sqr_inner Gen.ge_set_gej_zinv Gen.gej_rescale.
+Require Import Gen.fe_mul_inner Gen.fe_sqr_inner Gen.ge_set_gej_zinv Gen.gej_rescale Gen.ge_set_ge_zinv.
 Import ListNotations.
 Local Open Scope Z_scope.
 Local Opaque fe_mul_inner_k fe_sqr_inner_k.
@@ -40,4 +40,22 @@ Proof.
   - rewrite C0, C. reflexivity.
   - rewrite C2, C1, C. reflexivity.
   - rewrite C3. reflexivity.
+Qed.
+
+(* Gen/ge_set_ge_zinv.v: the same conversion starting from an affine point of an isomorphic curve (secp256k1_ge_set_ge_zinv,
+   used when the precomputed tables are brought back to the original curve): (x zi^2, y zi^3), infinity flag copied. *)
+Theorem ge_set_ge_zinv_correct inf zi0 zi1 zi2 zi3 zi4 x0 x1 x2 x3 x4 y0 y1 y2 y3 y4 :
+  lim 8 zi0 zi1 zi2 zi3 zi4 -> lim 8 x0 x1 x2 x3 x4 -> lim 8 y0 y1 y2 y3 y4 ->
+  ge_set_ge_zinv_k inf zi0 zi1 zi2 zi3 zi4 x0 x1 x2 x3 x4 y0 y1 y2 y3 y4 (fun rinf rx0 rx1 rx2 rx3 rx4 ry0 ry1 ry2 ry3 ry4 =>
+    let X := val5 x0 x1 x2 x3 x4 in let Y := val5 y0 y1 y2 y3 y4 in let ZI := val5 zi0 zi1 zi2 zi3 zi4 in
+    rinf = inf /\ lim 1 rx0 rx1 rx2 rx3 rx4 /\ lim 1 ry0 ry1 ry2 ry3 ry4 /\
+    cong (val5 rx0 rx1 rx2 rx3 rx4) (X * (ZI * ZI)) /\ cong (val5 ry0 ry1 ry2 ry3 ry4) (Y * (ZI * ZI * ZI))).
+Proof.
+  unfold lim. intros [Hz0 [Hz1 [Hz2 [Hz3 Hz4]]]] [Hx0 [Hx1 [Hx2 [Hx3 Hx4]]]] [Hy0 [Hy1 [Hy2 [Hy3 Hy4]]]].
+  unfold ge_set_ge_zinv_k.
+  sqr_step. mul_step. mul_step. mul_step. apply bind_intro; intros rinf Hinf; cbv beta.
+  split; [exact Hinf|]. split; [repeat split; lia|]. split; [repeat split; lia|].
+  split.
+  - rewrite C1, C. reflexivity.
+  - rewrite C2, C0, C. reflexivity.
 Qed.
